@@ -185,7 +185,8 @@ pub fn decode_85(data: &[u8]) -> Result<Vec<u8>> {
     let mut out = Vec::with_capacity((data.len() + 4) / 5 * 4);
     
     let mut stream = data.iter().cloned()
-        .filter(|&b| !matches!(b, b' ' | b'\n' | b'\r' | b'\t'));
+        // all six white-space characters of the syntax, as in decode_hex
+        .filter(|&b| !matches!(b, 0 | 9 | 10 | 12 | 13 | 32));
 
     let mut symbols = stream.by_ref()
         .take_while(|&b| b != b'~');
